@@ -18,7 +18,7 @@ Theorem C13_halted_refuses_local : forall s post id p, phalt s = Some (id, p) ->
 Proof. exact halted_refuses_local. Qed.
 Theorem C13_halted_log_moves_only_by_holder : forall s e s' c id p,
   phalt s = Some (id, p) -> step s e = (s', c) -> plog s' <> plog s ->
-  (exists post d, e = ECommit post d /\ holds (rlock s) id = true) \/ (exists post, e = EForeign id post).
+  (exists post d, (e = ECommit post d \/ e = ECommitWal post d) /\ holds (rlock s) id = true) \/ (exists post, e = EForeign id post).
 Proof. exact halted_log_moves_only_by_holder. Qed.
 (* ... which on the lock table means: the grant's guard set keeps every other owner out of RESERVED
    (rollback journal) and of WRITE and CKPT (WAL) - the generated RWMutex model of C11 *)
@@ -77,6 +77,24 @@ Theorem C13_former_holder_cannot_publish : forall s post d, phalt s = None -> st
 Proof. exact former_holder_cannot_publish. Qed.
 Theorem C13_replica_without_lock_cannot_write : forall s post d, rlock s = None -> step s (ECommit post d) = (s, c_refused).
 Proof. exact replica_without_lock_cannot_write. Qed.
+
+(* both journal modes: on a WAL-mode database the commit is the same commit, except that a forward which is
+   refused or whose answer is lost ends in a restart of the replica (fail-stop) instead of a rollback; an
+   acknowledged WAL commit is an acknowledged commit (C13_commit_acknowledged applies to it) *)
+Theorem C13_commit_wal_spec : forall s post d,
+  step s (ECommitWal post d) =
+  (let '(s1, c) := step s (ECommit post d) in if c =? c_ok then (s1, c) else (restart s1, c)).
+Proof. exact commit_wal_spec. Qed.
+Theorem C13_commit_wal_acknowledged : forall s post d s',
+  step s (ECommitWal post d) = (s', c_ok) -> step s (ECommit post d) = (s', c_ok).
+Proof. exact commit_wal_acknowledged. Qed.
+
+(* a replica that restarts while it holds the lock (in WAL mode: whose forwarded commit failed) has forgotten
+   it and is read-only again; the primary stays halted until release by id or expiry *)
+Theorem C13_restart_forgets : forall s post d,
+  let s1 := fst (step s ERestart) in
+  rlock s1 = None /\ plog s1 = plog s /\ phalt s1 = phalt s /\ rlog s1 = rlog s /\ step s1 (ECommit post d) = (s1, c_refused).
+Proof. exact restart_forgets. Qed.
 
 (* Non-vacuity: grant, blocked local write, two forwarded commits (the second unacknowledged), the stream
    repairs the replica and clears its stale lock, expiry, the primary writes again *)
